@@ -406,14 +406,14 @@ Definition ex_anim25 : anim := mkAnim 2 5 0 0 [] 0 0 0 0 0 0 [mkJoint [97] 0 [] 
 
 Example C20_ex_anim :
   wf_anim ex_anim10 = true /\ wf_anim ex_anim01 = true /\ wf_anim ex_anim25 = true /\
-  option_map (@length N) (write_anim ex_anim10) = Some 208%nat /\
-  (forall bs, write_anim ex_anim10 = Some bs -> parse_anim (bs ++ [1; 2; 3]%N) = Some (ex_anim10, [1; 2; 3]%N)) /\
+  option_map (@length N) (write_anim ex_anim10) = Some 194%nat /\
+  match write_anim ex_anim10 with Some bs => parse_anim (bs ++ [1; 2; 3]%N) | None => None end = Some (ex_anim10, [1; 2; 3]%N) /\
   (* parsing is not injective: a negative count reads as the empty list, a missing final NUL at EOF is accepted *)
   parse_anim [1; 0; 0; 0; 0; 0; 0; 0; 0; 0; 0; 0; 0; 0; 0; 0; 0; 0; 0; 0; 0; 0; 0; 0; 0; 0; 0; 0; 0; 0; 0; 0; 0;
               0; 0; 0; 0; 0; 0; 0; 0; 255; 255; 255; 255; 9]%N
     = Some (mkAnim 1 0 0 0 [] 0 0 0 0 0 0 [] [], [9]%N).
 Proof.
-  vm_compute. repeat split; try reflexivity. intros bs H. injection H as <-. reflexivity.
+  vm_compute. repeat split; reflexivity.
 Qed.
 
 (* every clause of wf_anim is needed: dropping it makes the round trip fail on the value shown *)
@@ -458,6 +458,20 @@ Theorem C20_anim_too_long_refused : forall (A : Type) signed (w : A -> option An
   len_ok signed l = false -> wr_coll signed w l = None.
 Proof. exact @wr_coll_too_long. Qed.
 Print Assumptions C20_anim_too_long_refused.
+
+(* every value Animation.from_bytes can return lies in wf_anim: the domain of the round-trip theorem is exactly the
+   image of the parser (on byte strings shorter than 2^31), so no clause of wf_anim excludes a parseable animation *)
+Theorem C20_anim_parse_wf : forall bs a r, bytes_okb bs = true -> short bs -> parse_anim bs = Some (a, r) ->
+  wf_anim a = true /\ bytes_okb r = true /\ (length r <= length bs)%nat.
+Proof. exact parse_anim_wf. Qed.
+Print Assumptions C20_anim_parse_wf.
+
+(* parse, serialise, parse again: the same animation (the from-bytes form of the property; parsing itself is not
+   injective - negative counts, a missing last NUL, NUL padding - so the bytes may differ, the value does not) *)
+Theorem C20_anim_reparse : forall bs a r, bytes_okb bs = true -> short bs -> parse_anim bs = Some (a, r) ->
+  exists bs', write_anim a = Some bs' /\ parse_anim (bs' ++ r) = Some (a, r).
+Proof. exact anim_reparse. Qed.
+Print Assumptions C20_anim_reparse.
 
 (* ====================================================================================== *)
 (* (5) the mesh asset container (Asset/MeshLayout.v): LLMeshSerializer.serialize / deserialize.  Oracles (premises of
@@ -530,6 +544,17 @@ Theorem C20_mesh_roundtrip : forall (X S : Type) rk deflate inflate enc_hdr dec_
 Proof. exact mesh_rt_decoded. Qed.
 Print Assumptions C20_mesh_roundtrip.
 
+(* second generation: serialising the asset a parse gave back yields the same bytes again (header included) *)
+Theorem C20_mesh_fixed_point : forall (X S : Type) rk deflate inflate enc_hdr dec_hdr,
+  (forall (h : mheader X) rest, dec_hdr (enc_hdr h ++ rest) = Some (h, rest)) ->
+  (forall k (s : S), inflate k (deflate k s) = IOk s) ->
+  forall (m : mesh X S) incl bs, NoDup (hkeys X (m_header m)) -> decoded X S m ->
+  write_mesh rk deflate enc_hdr false m = Some bs ->
+  exists p, parse_mesh inflate dec_hdr false incl bs = Some p /\
+            write_mesh rk deflate enc_hdr false (mesh_of_parsed p) = Some bs.
+Proof. exact mesh_fixed_point. Qed.
+Print Assumptions C20_mesh_fixed_point.
+
 (* the hypotheses are satisfiable: a concrete header codec and blob codec satisfy both laws, and a mesh with known
    segments out of order, an unknown segment, stale offsets, an extra entry inside a segment header and non-segment
    entries goes through write and parse *)
@@ -551,8 +576,10 @@ Example C20_ex_mesh :
     Some ([ ([118]%N, HOther 1%N); ([115; 107; 105; 110]%N, HSeg 3 1 9%N); ([122]%N, HSeg 4 4 0%N);
             ([104; 105; 103; 104; 95; 108; 111; 100]%N, HSeg 0 3 0%N); ([99]%N, HOther 2%N) ],
           [120; 7; 7; 120; 120; 1; 2; 3]%N) /\
-  (exists bs, write_mesh (rank known_segments) toy_deflate toy_enc false ex_mesh = Some bs /\
-     option_map (fun p => (p_segments p, p_raw p)) (parse_mesh toy_inflate toy_dec false true bs) =
+  (match write_mesh (rank known_segments) toy_deflate toy_enc false ex_mesh with
+   | Some bs => option_map (fun p => (p_segments p, p_raw p)) (parse_mesh toy_inflate toy_dec false true bs)
+   | None => None
+   end =
      Some ([ ([115; 107; 105; 110]%N, []%N); ([122]%N, [1; 2; 3]%N); ([104; 105; 103; 104; 95; 108; 111; 100]%N, [7; 7]%N) ],
            [ ([115; 107; 105; 110]%N, [120]%N); ([122]%N, [120; 1; 2; 3]%N);
              ([104; 105; 103; 104; 95; 108; 111; 100]%N, [120; 7; 7]%N) ])).
@@ -561,8 +588,7 @@ Proof.
   { cbn. repeat constructor; cbn; intuition discriminate. }
   split.
   { split; [reflexivity|]. cbn. repeat constructor; eexists; reflexivity. }
-  split; [vm_compute; reflexivity|].
-  eexists. split; vm_compute; reflexivity.
+  split; vm_compute; reflexivity.
 Qed.
 
 (* what the container does NOT give back: a segment whose header entry is not a segment header is silently left out
@@ -576,3 +602,239 @@ Theorem C20_mesh_non_header_segment_refuted :
   write_layout (rank known_segments) toy_deflate false (mkMesh [([115]%N, HSeg 42 7 0%N)] ([] : list (MeshLayout.key * segval MeshLayout.bytes)) []) = None.
 Proof. vm_compute. repeat split; reflexivity. Qed.
 Print Assumptions C20_mesh_non_header_segment_refuted.
+
+(* ====================================================================================== *)
+(* (B8) whole inventory models (Asset/InvModel.v): InventoryModel's node store, add(), to_writer/from_reader,
+   to_llsd/from_llsd for both flavours (a flat list of per-node dicts; the AIS overrides of InventoryCategory and
+   InventoryItem included) and __eq__ (the SET of nodes).  A node is (class index in INVENTORY_TYPES order, field values
+   in dataclasses.fields order); [T] is the class table (gen/C20_invmodel.v instantiates everything at the live one,
+   wf_table = true by vm_compute).  Hypotheses, all decidable:
+     wf_table_*      of the table: per-class schemas well-formed, header tokens / id keys distinct, field orders are
+                     permutations, the override's keys distinct from each other and from the id key;
+     node_ok_*       per node: the per-record domain of the flavour (Record.dom / Llsd.dom_llsd); for AIS additionally
+                     a category is of type CATEGORY and a link item has a target and exactly the permissions / sale_info
+                     that from_llsd re-creates for links (the AIS dict of a link has no slot for them);
+     ids_distinct    node ids pairwise distinct - automatic for a model built with add() alone (C20_model_built_by_add).
+   Each is shown necessary below (`_refuted`) and the witnesses are replayed on the real code on every run ("explicit"
+   cases of the 'whole InventoryModels' suite).
+   The code has NO nested categories/items/links AIS document inside InventoryModel (that reader, with `_embedded`, lives in
+   client/inventory_manager.py and has no writer), so there is nothing of that kind to round-trip. *)
+
+From HV Require Import Asset.InvModel Asset.InvModelProofs.
+
+(* serialise-then-parse through the legacy text: the model read back holds the same nodes, containers first (each
+   group in the original dict order), keyed by their ids, root = the last container under UUID.ZERO; it is equal to
+   the original as InventoryModel.__eq__ sees it *)
+Theorem C20_model_text_roundtrip : forall T m, wf_table_text T = true ->
+  forallb (node_ok_text T) (svalues m) = true -> ids_distinct T (svalues m) = true ->
+  exists m', from_reader T (to_writer T m) = Some m' /\
+    svalues m' = ordered T (svalues m) /\ skeys m' = map (node_key T) (ordered T (svalues m)) /\
+    s_root m' = root_of T (ordered T (svalues m)) /\ model_eq m' m.
+Proof. exact model_text_roundtrip. Qed.
+Print Assumptions C20_model_text_roundtrip.
+
+(* two nodes with one id (possible only by overwriting an id attribute after add()): the reader raises KeyError *)
+Theorem C20_model_text_dup_ids : forall T m, wf_table_text T = true ->
+  forallb (node_ok_text T) (svalues m) = true -> ids_distinct T (svalues m) = false ->
+  from_reader T (to_writer T m) = None.
+Proof. exact model_text_dup_ids. Qed.
+Print Assumptions C20_model_text_dup_ids.
+
+(* from_reader of ANY sequence of well-formed blocks, in any order, with skippable lines (blank, unparsable, "{",
+   unknown keys) before each block and at the end = add() of the nodes in text order (None iff an id repeats) *)
+Theorem C20_model_text_blocks : forall T jns tail, wf_table_text T = true ->
+  Forall (fun jn => forallb (skip_line T) (fst jn) = true /\ node_ok_text T (snd jn) = true) jns ->
+  forallb (skip_line T) tail = true ->
+  from_reader T (block_seq T jns ++ tail) = add_all T empty_store (map snd jns).
+Proof. exact from_reader_blocks. Qed.
+Print Assumptions C20_model_text_blocks.
+
+(* a "}" at block level ends the outer token loop: whatever follows is never read (e.g. everything after a block of an
+   unknown kind, whose own closing brace is such a line) *)
+Theorem C20_model_text_stop : forall T jns junk l ignored, wf_table_text T = true ->
+  Forall (fun jn => forallb (skip_line T) (fst jn) = true /\ node_ok_text T (snd jn) = true) jns ->
+  forallb (skip_line T) junk = true -> stop_line l = true ->
+  from_reader T (block_seq T jns ++ junk ++ l :: ignored) = add_all T empty_store (map snd jns).
+Proof. exact from_reader_stop. Qed.
+Print Assumptions C20_model_text_stop.
+
+(* the fuel of the reader model is an artefact: any amount above the number of lines gives the same result *)
+Theorem C20_model_reader_fuel : forall T f1 f2 lines m, (length lines < f1)%nat -> (length lines < f2)%nat ->
+  read_top T f1 lines m = read_top T f2 lines m.
+Proof. exact read_top_fuel. Qed.
+Print Assumptions C20_model_reader_fuel.
+
+(* legacy LLSD flavour: InventoryModel.from_llsd(m.to_llsd()) *)
+Theorem C20_model_llsd_roundtrip : forall T m, wf_table_llsd Legacy T = true ->
+  forallb (node_ok_llsd Legacy T) (svalues m) = true -> ids_distinct T (svalues m) = true ->
+  exists ds m', model_to_llsd Legacy T m = Some ds /\ model_from_llsd Legacy T ds = Some m' /\
+    svalues m' = ordered T (svalues m) /\ skeys m' = map (node_key T) (ordered T (svalues m)) /\
+    s_root m' = root_of T (ordered T (svalues m)) /\ model_eq m' m.
+Proof. exact (model_llsd_roundtrip Legacy). Qed.
+Print Assumptions C20_model_llsd_roundtrip.
+
+(* AIS flavour, with the overrides *)
+Theorem C20_model_ais_roundtrip : forall T m, wf_table_llsd Ais T = true ->
+  forallb (node_ok_llsd Ais T) (svalues m) = true -> ids_distinct T (svalues m) = true ->
+  exists ds m', model_to_llsd Ais T m = Some ds /\ model_from_llsd Ais T ds = Some m' /\
+    svalues m' = ordered T (svalues m) /\ skeys m' = map (node_key T) (ordered T (svalues m)) /\
+    s_root m' = root_of T (ordered T (svalues m)) /\ model_eq m' m.
+Proof. exact (model_llsd_roundtrip Ais). Qed.
+Print Assumptions C20_model_ais_roundtrip.
+
+Theorem C20_model_llsd_dup_ids : forall fl T m, wf_table_llsd fl T = true ->
+  forallb (node_ok_llsd fl T) (svalues m) = true -> ids_distinct T (svalues m) = false ->
+  exists ds, model_to_llsd fl T m = Some ds /\ model_from_llsd fl T ds = None.
+Proof. exact model_llsd_dup_ids. Qed.
+Print Assumptions C20_model_llsd_dup_ids.
+
+(* one node through Cls.to_llsd / Cls.from_llsd of a flavour, overrides included (the way client/inventory_manager.py
+   uses the AIS flavour); the dict carries the class's id key and only keys the class may write *)
+Theorem C20_node_llsd_roundtrip : forall fl c r, wf_class_llsd fl c = true -> length r = c_arity c ->
+  dom_llsd fl (c_llsd fl c) (permute None (c_perm fl c) r) = true ->
+  match fl with Legacy => true | Ais => ov_ok (c_ov c) (to_llsd fl (c_llsd fl c) (permute None (c_perm fl c) r)) end = true ->
+  exists d, class_to_llsd fl c r = Some d /\ class_from_llsd fl c d = Some r /\ dmem d (c_id fl c) = true /\
+            (forall k, In k (map fst d) -> In k (allowed_keys fl c)).
+Proof. exact class_llsd_roundtrip. Qed.
+Print Assumptions C20_node_llsd_roundtrip.
+
+(* SchemaBase.from_llsd reads a dict as a finite map: entry order and entries under unknown keys are irrelevant *)
+Theorem C20_llsd_dict_order_irrelevant : forall fl S r d, wf_keys S = true -> dom_llsd fl S r = true -> NoDup (map fst d) ->
+  (forall k, In k (map f_name S) -> assoc_s d k = assoc_s (to_llsd fl S r) k) -> from_llsd fl S d = Some r.
+Proof. exact from_llsd_ext. Qed.
+Print Assumptions C20_llsd_dict_order_irrelevant.
+
+(* model equality (InventoryModel.__eq__) is an equivalence, decided by model_eqb, blind to node order, keys and root *)
+Theorem C20_model_eq_equiv :
+  (forall m, model_eq m m) /\ (forall m1 m2, model_eq m1 m2 -> model_eq m2 m1) /\
+  (forall m1 m2 m3, model_eq m1 m2 -> model_eq m2 m3 -> model_eq m1 m3) /\
+  (forall m1 m2, model_eqb m1 m2 = true <-> model_eq m1 m2).
+Proof. split; [exact model_eq_refl | split; [exact model_eq_sym | split; [exact model_eq_trans | exact model_eqb_spec]]]. Qed.
+Print Assumptions C20_model_eq_equiv.
+
+(* a model built from the empty one with add() alone: nodes in insertion order under their own, distinct ids *)
+Theorem C20_model_built_by_add : forall T ns m, add_all T empty_store ns = Some m ->
+  svalues m = ns /\ consistent T m = true /\ ids_distinct T (svalues m) = true.
+Proof. exact built_by_add. Qed.
+Print Assumptions C20_model_built_by_add.
+
+(* non-vacuity: a small class table shaped like the live one (category / object / item; nested permissions and sale_info; the
+   three field orders differ), a model with a category tree, an object, an item with sale info and a link *)
+Definition exm_asset_to : list (Z * str) := [(0%Z, [116; 101; 120; 116; 117; 114; 101]%N); (6%Z, [111; 98; 106; 101; 99; 116]%N); (8%Z, [99; 97; 116; 101; 103; 111; 114; 121]%N); (24%Z, [108; 105; 110; 107]%N)].
+Definition exm_asset_from : list (str * Z) := [([116; 101; 120; 116; 117; 114; 101]%N, 0%Z); ([111; 98; 106; 101; 99; 116]%N, 6%Z); ([99; 97; 116; 101; 103; 111; 114; 121]%N, 8%Z); ([108; 105; 110; 107]%N, 24%Z)].
+Definition exm_sale_to : list (Z * str) := [(0%Z, [110; 111; 116]%N); (2%Z, [99; 111; 112; 121]%N)].
+Definition exm_sale_from : list (str * Z) := [([110; 111; 116]%N, 0%Z); ([99; 111; 112; 121]%N, 2%Z)].
+Definition exm_asset := KEnum exm_asset_to exm_asset_from.
+Definition exm_sale := KEnum exm_sale_to exm_sale_from.
+Definition exm_cat_text : schema := [mkF [99; 97; 116; 95; 105; 100]%N (FP KUUID) None false false; mkF [112; 97; 114; 101; 110; 116; 95; 105; 100]%N (FP KUUID) None false false; mkF [116; 121; 112; 101]%N (FP exm_asset) None false false; mkF [110; 97; 109; 101]%N (FP KMStr) None false false].
+Definition exm_cat_legacy : schema := [mkF [112; 97; 114; 101; 110; 116; 95; 105; 100]%N (FP KUUID) None false false; mkF [116; 121; 112; 101]%N (FP exm_asset) None false false; mkF [99; 97; 116; 95; 105; 100]%N (FP KUUID) None false false; mkF [110; 97; 109; 101]%N (FP KMStr) None false false].
+Definition exm_cat_ais : schema := [mkF [112; 97; 114; 101; 110; 116; 95; 105; 100]%N (FP KUUID) None false false; mkF [116; 121; 112; 101]%N (FP exm_asset) None false false; mkF [110; 97; 109; 101]%N (FP KMStr) None false false; mkF [99; 97; 116; 101; 103; 111; 114; 121; 95; 105; 100]%N (FP KUUID) None false false].
+Definition exm_obj_text : schema := [mkF [111; 98; 106; 95; 105; 100]%N (FP KUUID) None false false; mkF [112; 97; 114; 101; 110; 116; 95; 105; 100]%N (FP KUUID) None false false; mkF [116; 121; 112; 101]%N (FP exm_asset) None false false; mkF [110; 97; 109; 101]%N (FP KMStr) None false false].
+Definition exm_obj_llsd : schema := [mkF [112; 97; 114; 101; 110; 116; 95; 105; 100]%N (FP KUUID) None false false; mkF [116; 121; 112; 101]%N (FP exm_asset) None false false; mkF [111; 98; 106; 95; 105; 100]%N (FP KUUID) None false false; mkF [110; 97; 109; 101]%N (FP KMStr) None false false].
+Definition exm_item_text : schema := [mkF [105; 116; 101; 109; 95; 105; 100]%N (FP KUUID) None false false;
+  mkF [112; 97; 114; 101; 110; 116; 95; 105; 100]%N (FP KUUID) None false false;
+  mkF [112; 101; 114; 109; 105; 115; 115; 105; 111; 110; 115]%N (FB [112; 101; 114; 109; 105; 115; 115; 105; 111; 110; 115]%N [mkPF [111; 119; 110; 101; 114; 95; 109; 97; 115; 107]%N KHex None false false; mkPF [111; 119; 110; 101; 114; 95; 105; 100]%N KUUID None false false]) None false false;
+  mkF [97; 115; 115; 101; 116; 95; 105; 100]%N (FP KUUID) (Some None) false false;
+  mkF [116; 121; 112; 101]%N (FP exm_asset) (Some None) false false;
+  mkF [115; 97; 108; 101; 95; 105; 110; 102; 111]%N (FB [115; 97; 108; 101; 95; 105; 110; 102; 111]%N [mkPF [115; 97; 108; 101; 95; 116; 121; 112; 101]%N exm_sale None false false; mkPF [115; 97; 108; 101; 95; 112; 114; 105; 99; 101]%N KInt None false false]) (Some None) false false;
+  mkF [110; 97; 109; 101]%N (FP KMStr) (Some None) false false].
+Definition exm_item_llsd : schema := [mkF [112; 97; 114; 101; 110; 116; 95; 105; 100]%N (FP KUUID) None false false;
+  mkF [105; 116; 101; 109; 95; 105; 100]%N (FP KUUID) None false false;
+  mkF [112; 101; 114; 109; 105; 115; 115; 105; 111; 110; 115]%N (FB [112; 101; 114; 109; 105; 115; 115; 105; 111; 110; 115]%N [mkPF [111; 119; 110; 101; 114; 95; 109; 97; 115; 107]%N KHex None false false; mkPF [111; 119; 110; 101; 114; 95; 105; 100]%N KUUID None false false]) None false false;
+  mkF [97; 115; 115; 101; 116; 95; 105; 100]%N (FP KUUID) (Some None) false false;
+  mkF [116; 121; 112; 101]%N (FP exm_asset) (Some None) false false;
+  mkF [115; 97; 108; 101; 95; 105; 110; 102; 111]%N (FB [115; 97; 108; 101; 95; 105; 110; 102; 111]%N [mkPF [115; 97; 108; 101; 95; 116; 121; 112; 101]%N exm_sale None false false; mkPF [115; 97; 108; 101; 95; 112; 114; 105; 99; 101]%N KInt None false false]) (Some None) false false;
+  mkF [110; 97; 109; 101]%N (FP KMStr) (Some None) false false].
+Definition exm_dflt_perms : lval := LM [([111; 119; 110; 101; 114; 95; 109; 97; 115; 107]%N, LI 4294967295%Z); ([111; 119; 110; 101; 114; 95; 105; 100]%N, LU 0)].
+Definition exm_dflt_sale : lval := LM [([115; 97; 108; 101; 95; 116; 121; 112; 101]%N, LI 0%Z); ([115; 97; 108; 101; 95; 112; 114; 105; 99; 101]%N, LI 0%Z)].
+Definition exm_table : ctable := [
+  mkCls [105; 110; 118; 95; 99; 97; 116; 101; 103; 111; 114; 121]%N true 4%nat 2%nat 0%nat exm_cat_text [2; 0; 1; 3]%nat exm_cat_legacy [0; 1; 2; 3]%nat [99; 97; 116; 95; 105; 100]%N exm_cat_ais [0; 1; 3; 2]%nat [99; 97; 116; 101; 103; 111; 114; 121; 95; 105; 100]%N (OvCat [116; 121; 112; 101]%N 8%Z);
+  mkCls [105; 110; 118; 95; 111; 98; 106; 101; 99; 116]%N true 4%nat 2%nat 0%nat exm_obj_text [2; 0; 1; 3]%nat exm_obj_llsd [0; 1; 2; 3]%nat [111; 98; 106; 95; 105; 100]%N exm_obj_llsd [0; 1; 2; 3]%nat [111; 98; 106; 95; 105; 100]%N OvNone;
+  mkCls [105; 110; 118; 95; 105; 116; 101; 109]%N false 7%nat 1%nat 0%nat exm_item_text [1; 0; 2; 3; 4; 5; 6]%nat exm_item_llsd [0; 1; 2; 3; 4; 5; 6]%nat [105; 116; 101; 109; 95; 105; 100]%N exm_item_llsd [0; 1; 2; 3; 4; 5; 6]%nat [105; 116; 101; 109; 95; 105; 100]%N
+    (OvItem [97; 103; 101; 110; 116; 95; 105; 100]%N [112; 101; 114; 109; 105; 115; 115; 105; 111; 110; 115]%N [111; 119; 110; 101; 114; 95; 105; 100]%N [116; 121; 112; 101]%N [108; 105; 110; 107; 101; 100; 95; 105; 100]%N [97; 115; 115; 101; 116; 95; 105; 100]%N [115; 97; 108; 101; 95; 105; 110; 102; 111]%N 24%Z exm_dflt_perms exm_dflt_sale) ].
+
+(* dataclass order: category/object = parent_id type id name ; item = parent_id item_id permissions asset_id type sale_info name *)
+Definition exm_root : node := (0%nat, [Some (P (VN 0)); Some (P (VZ 8)); Some (P (VN 16)); Some (P (VS [77; 121; 32; 73; 110; 118; 101; 110; 116; 111; 114; 121]%N))]).
+Definition exm_sub : node := (0%nat, [Some (P (VN 16)); Some (P (VZ 8)); Some (P (VN 17)); Some (P (VS [67; 108; 111; 116; 104; 105; 110; 103]%N))]).
+Definition exm_box : node := (1%nat, [Some (P (VN 17)); Some (P (VZ 6)); Some (P (VN 48)); Some (P (VS [98; 111; 120]%N))]).
+Definition exm_shirt : node := (2%nat, [Some (P (VN 17)); Some (P (VN 32)); Some (R [Some (VN 581632); Some (VN 2)]); Some (P (VN 153));
+                                   Some (P (VZ 0)); Some (R [Some (VZ 2); Some (VZ 10)]); Some (P (VS [115; 104; 105; 114; 116]%N))]).
+Definition exm_link : node := (2%nat, [Some (P (VN 16)); Some (P (VN 33)); Some (R [Some (VN 4294967295); Some (VN 0)]); Some (P (VN 32));
+                                  Some (P (VZ 24)); Some (R [Some (VZ 0); Some (VZ 0)]); None]).
+Definition exm_store (ns : list node) : store := mkStore (map (fun n => (node_key exm_table n, n)) ns) None.
+Definition exm_model : store := exm_store [exm_shirt; exm_root; exm_box; exm_sub; exm_link].
+
+Example C20_ex_model :
+  wf_table exm_table = true /\
+  forallb (node_ok_text exm_table) (svalues exm_model) = true /\
+  forallb (node_ok_llsd Legacy exm_table) (svalues exm_model) = true /\
+  forallb (node_ok_llsd Ais exm_table) (svalues exm_model) = true /\
+  ids_distinct exm_table (svalues exm_model) = true /\
+  add_all exm_table empty_store (svalues exm_model) = Some (mkStore (s_nodes exm_model) (Some exm_root)) /\
+  length (to_writer exm_table exm_model) = 56%nat /\
+  from_reader exm_table (to_writer exm_table exm_model) =
+    Some (mkStore (s_nodes (exm_store [exm_root; exm_box; exm_sub; exm_shirt; exm_link])) (Some exm_root)) /\
+  option_map (map (map fst)) (model_to_llsd Ais exm_table exm_model) =
+    Some [[[112; 97; 114; 101; 110; 116; 95; 105; 100]%N; [110; 97; 109; 101]%N; [99; 97; 116; 101; 103; 111; 114; 121; 95; 105; 100]%N]; [[112; 97; 114; 101; 110; 116; 95; 105; 100]%N; [116; 121; 112; 101]%N; [111; 98; 106; 95; 105; 100]%N; [110; 97; 109; 101]%N]; [[112; 97; 114; 101; 110; 116; 95; 105; 100]%N; [110; 97; 109; 101]%N; [99; 97; 116; 101; 103; 111; 114; 121; 95; 105; 100]%N];
+          [[112; 97; 114; 101; 110; 116; 95; 105; 100]%N; [105; 116; 101; 109; 95; 105; 100]%N; [112; 101; 114; 109; 105; 115; 115; 105; 111; 110; 115]%N; [97; 115; 115; 101; 116; 95; 105; 100]%N; [116; 121; 112; 101]%N; [115; 97; 108; 101; 95; 105; 110; 102; 111]%N; [110; 97; 109; 101]%N; [97; 103; 101; 110; 116; 95; 105; 100]%N]; [[112; 97; 114; 101; 110; 116; 95; 105; 100]%N; [105; 116; 101; 109; 95; 105; 100]%N; [116; 121; 112; 101]%N; [97; 103; 101; 110; 116; 95; 105; 100]%N; [108; 105; 110; 107; 101; 100; 95; 105; 100]%N]] /\
+  (forall fl, match model_to_llsd fl exm_table exm_model with
+              | Some ds => match model_from_llsd fl exm_table ds with
+                           | Some m' => model_eqb m' exm_model && match s_root m' with Some r => node_eqb r exm_root | None => false end
+                           | None => false
+                           end
+              | None => false
+              end = true).
+Proof. do 9 (split; [vm_compute; reflexivity|]). intros []; vm_compute; reflexivity. Qed.
+
+(* blocks in any order with junk in between; an unknown block kind swallows everything after it *)
+Example C20_ex_model_blocks :
+  let junk := [[]; [32; 32]%N; [9; 105; 110; 118; 95; 119; 105; 100; 103; 101; 116; 9; 48]%N] in
+  let unknown := [[9; 105; 110; 118; 95; 119; 105; 100; 103; 101; 116; 9; 48]%N; [9; 123]%N; [9; 9; 119; 105; 100; 103; 101; 116; 95; 105; 100; 9; 49]%N; [9; 125]%N] in
+  from_reader exm_table (junk ++ node_lines exm_table exm_shirt ++ junk ++ node_lines exm_table exm_root ++ [[110; 111; 32; 118; 97; 108; 117; 101]%N]) =
+    add_all exm_table empty_store [exm_shirt; exm_root] /\
+  from_reader exm_table (node_lines exm_table exm_sub ++ unknown ++ to_writer exm_table exm_model) =
+    add_all exm_table empty_store [exm_sub].
+Proof. vm_compute. split; reflexivity. Qed.
+
+(* every model-level hypothesis is needed *)
+Theorem C20_model_dup_ids_refuted :
+  let m := exm_store [exm_shirt; exm_root; (2%nat, [Some (P (VN 16)); Some (P (VN 32)); Some (R [Some (VN 1); Some (VN 2)]); None; None; None; None])] in
+  forallb (node_ok_text exm_table) (svalues m) = true /\ forallb (node_ok_llsd Legacy exm_table) (svalues m) = true /\
+  ids_distinct exm_table (svalues m) = false /\
+  from_reader exm_table (to_writer exm_table m) = None /\
+  (exists ds, model_to_llsd Legacy exm_table m = Some ds /\ model_from_llsd Legacy exm_table ds = None).
+Proof. vm_compute. repeat split; try reflexivity. eexists. split; reflexivity. Qed.
+Print Assumptions C20_model_dup_ids_refuted.
+
+(* AIS: a category whose type is not CATEGORY comes back as CATEGORY *)
+Theorem C20_model_ais_category_refuted :
+  let c := (0%nat, [Some (P (VN 0)); Some (P (VZ 6)); Some (P (VN 16)); Some (P (VS [120]%N))]) in
+  let m := exm_store [c] in
+  node_ok_llsd Legacy exm_table c = true /\ node_ok_llsd Ais exm_table c = false /\
+  match model_to_llsd Ais exm_table m with
+  | Some ds => match model_from_llsd Ais exm_table ds with Some m' => model_eqb m' m | None => true end
+  | None => true
+  end = false.
+Proof. vm_compute. repeat split; reflexivity. Qed.
+Print Assumptions C20_model_ais_category_refuted.
+
+(* AIS: a link without a target cannot be written (KeyError); a link without sale_info, or with permissions of its own,
+   comes back with the ones from_llsd re-creates *)
+Theorem C20_model_ais_link_refuted :
+  let no_target := (2%nat, [Some (P (VN 16)); Some (P (VN 33)); Some (R [Some (VN 4294967295); Some (VN 0)]); None;
+                        Some (P (VZ 24)); Some (R [Some (VZ 0); Some (VZ 0)]); None]) in
+  let no_sale := (2%nat, [Some (P (VN 16)); Some (P (VN 33)); Some (R [Some (VN 4294967295); Some (VN 0)]); Some (P (VN 32));
+                      Some (P (VZ 24)); None; None]) in
+  let own_perms := (2%nat, [Some (P (VN 16)); Some (P (VN 33)); Some (R [Some (VN 1); Some (VN 2)]); Some (P (VN 32));
+                        Some (P (VZ 24)); Some (R [Some (VZ 0); Some (VZ 0)]); None]) in
+  let differs n := match model_to_llsd Ais exm_table (exm_store [n]) with
+                   | Some ds => match model_from_llsd Ais exm_table ds with Some m' => negb (model_eqb m' (exm_store [n])) | None => false end
+                   | None => false
+                   end in
+  forallb (node_ok_llsd Legacy exm_table) [no_target; no_sale; own_perms] = true /\
+  forallb (fun n => negb (node_ok_llsd Ais exm_table n)) [no_target; no_sale; own_perms] = true /\
+  model_to_llsd Ais exm_table (exm_store [no_target]) = None /\
+  differs no_sale = true /\ differs own_perms = true.
+Proof. vm_compute. repeat split; reflexivity. Qed.
+Print Assumptions C20_model_ais_link_refuted.
+
